@@ -46,3 +46,25 @@ def official_order(keys, O):
     """The glyph order of property C03: .notdef, then listed names, then the rest sorted."""
     S = without_notdef(keys)
     return notdef_head(keys) + firsts(O, S, len(O)) + sorted(S - elems_upto(O, len(O)))
+
+
+@specfn(INT, opaque=True, s=STR)
+def int_hex(s):
+    """int(s, 16) — uninterpreted in the logic (the same symbol the code's int(x, 16) is encoded with)"""
+    return int(s, 16)
+
+
+@specfn(Tuple(INT, Opt(STR)), hv=STR, gm=Dict(STR, STR), M=Dict(INT, STR))
+def uvs_entry(hv, gm, M):
+    """format-14 entry for base value hv: default (None) iff it names the base mapping's glyph"""
+    v = int_hex(hv)
+    if gm[hv] == M[v]:
+        return (v, None)
+    return (v, gm[hv])
+
+
+@specfn(BOOL, L=List(Tuple(INT, Opt(STR))), gm=Dict(STR, STR), M=Dict(INT, STR))
+def uvs_list_ok(L, gm, M):
+    """L lists one entry per base value of gm, in gm's order"""
+    K = list(gm)
+    return len(L) == len(K) and all(L[b] == uvs_entry(K[b], gm, M) for b in range(len(K)))
